@@ -447,7 +447,7 @@ namespace plan
       top.nums.push_back({v});
       static const char *pv[] = {"0", "1", "-2", "3", "1/2", "5", "-1", "5/2"};
       planted[v] = mpq_class(pv[(m.reals.size() - 1) % 8]);
-      decl("real " + v + ";");
+      decl(std::string(modn(op.arg(0), 6) == 5 ? "int " : "real ") + v + ";");
     }
     else if (n == "bool")
     {
